@@ -13,7 +13,8 @@ stats = Counter(); t0 = time.time()
 for s in range(N):
     rng = rng_for("probe", s)
     it = gen_mol.build_item(rng, weights=(s % 2 == 0), hyper=("S", "P", "N") if s % 3 else (), explicit_h=(s % 4 == 1),
-                            n_leaves=rng.randint(1, 16) if s % 5 == 0 else None, size=rng.randint(20, 45) if s % 5 == 0 else None)
+                            n_leaves=rng.randint(1, 16) if s % 5 == 0 else None, size=rng.randint(20, 45) if s % 5 == 0 else None,
+                            components=rng.choice([2, 3]) if s % 7 == 0 else 1)
     r = admit.admit(it)
     if r:
         stats["reject"] += 1; print("REJECT", s, r[:300]); print("  ", it["multi"][:600]); continue
